@@ -348,7 +348,7 @@ class Server:
 
 class Ssh2Server:
     """Cooperative OpenSSH-like behaviour.  spec keys: banner(bytes), pre(list of bytes lines), kex/key/enc/mac/comp
-    (name lists, bytes or str), hostkeys {type(bytes): blob}, gex(callable (min,pref,max)->bits|None|'garbage'|'stall'|'close'),
+    (name lists, bytes or str), hostkeys {type(bytes): blob}, gex(callable (min,pref,max)->bits|None|'garbage'|'stall'|'close'|'disconnect'|'debug-disconnect'|'debug-ignore'),
     kexinit_override(bytes payload incl. type), send_kexinit(bool)."""
 
     def __init__(self, spec):
@@ -435,6 +435,16 @@ class Ssh2Server:
                     return
                 if ans == 'garbage':
                     c.send(bytes(range(7, 60)), 'garbage')
+                    c.wait_eof()
+                    return
+                if ans in ('debug-disconnect', 'debug-ignore'):   # DEBUG messages, then something that is not a group
+                    for _ in range(2):
+                        c.send(frame2(bytes([4, 0]) + sstr(b'dbg') + sstr(b'')), 'debug')
+                    c.send(frame2((bytes([1]) + u32(11) + sstr(b'disconnected by application') + sstr(b'')) if ans == 'debug-disconnect' else (bytes([2]) + sstr(b'x' * 20))), ans)   # reason code 11 reads as a plausible length field
+                    c.close()
+                    return
+                if ans == 'huge':    # a modulus far beyond anything requested (65536 bits still fits comfortably in one packet)
+                    c.send(frame2(gex_group(65536)), 'gex_group_huge')
                     c.wait_eof()
                     return
                 if ans == 'disconnect':
